@@ -150,3 +150,17 @@ Proof.
   intros o Ho E. rewrite Forall_forall in F. rewrite (F o Ho) in E. discriminate.
 Qed.
 Print Assumptions C16_no_ip_update_example.
+
+(* Configuration plumbing (Model/Config.v, transcribing ConfigBuilder, Config, Discv5::new / Discv5::start,
+   tied to the code by the `glue` correspondence run on real loopback sockets): the parameters the theorems
+   above take as given are the ones the application configured - the value set last through the builder,
+   or the default - at every component they are handed to. *)
+Require Discv5V.Generated.Params Discv5V.Model.Config Discv5V.Proofs.Config.
+Theorem C16_configured_ip_limit_installs_the_filters : forall ops v, Discv5V.Model.Config.start_node ops = Some v ->
+  Discv5V.Model.Config.VB (Discv5V.Model.Config.nv_ip_filters v) = Discv5V.Model.Config.configured ops Discv5V.Model.Config.FIpLimit /\
+  Discv5V.Model.Config.VB (Discv5V.Model.Config.c_ip_limit (Discv5V.Model.Config.nv_service v)) = Discv5V.Model.Config.configured ops Discv5V.Model.Config.FIpLimit.
+Proof. exact Discv5V.Proofs.Config.effective_ip_limit. Qed.
+Print Assumptions C16_configured_ip_limit_installs_the_filters.
+Theorem C16_configuration_example : exists v, Discv5V.Model.Config.start_node Discv5V.Proofs.Config.example_ops = Some v.
+Proof. destruct Discv5V.Proofs.Config.example_starts as [v [H _]]. exists v. exact H. Qed.
+Print Assumptions C16_configuration_example.
